@@ -97,6 +97,18 @@ def pOp (s : String) : Option Op :=
   | ["g", v] => do pure (.setGeneric (← pBool v))
   | _ => none
 
+def pXOp (s : String) : Option XOp :=
+  if s == "O" then some .openConn else if s == "X" then some .closeConn else (pOp s).map .op
+
+def pHook (s : String) : Option (List HookStmt) :=
+  (splitL ";" s).mapM (fun e =>
+    match e.splitOn "," with
+    | ["a"] => some HookStmt.acquireDefault
+    | ["c", l] => (unhx l).map HookStmt.command
+    | ["i", l] => (unhx l).map HookStmt.input
+    | ["r", l] => (unhx l).map HookStmt.raw
+    | _ => none)
+
 def outcomeStr : Outcome → String
   | .ok => "ok" | .privErr => "priv" | .authFail => "auth" | .timeout => "timeout"
   | .valueErr => "value" | .indexErr => "index" | .keyErr => "key" | .connErr => "conn"
@@ -109,26 +121,27 @@ structure Req where
   cfg : Cfg
   mcfg : MCfg
   w : W MDev
-  ops : List Op
+  ops : List XOp
 
 def pReq (line : String) : Option Req :=
   match line.trimAscii.toString.splitOn " " with
-  | [tb, dflt, sec, ab, ss, blocked, pw, pwl, fl, extra, login, belief, ords, ops] => do
+  | [tb, dflt, sec, ab, ss, blocked, pw, pwl, fl, extra, login, belief, ords, hko, hkc, opened, ops] => do
     let t ← (splitL ";" tb).mapM pLevel
     let snaps ← (splitL ";" ords).mapM pSnapshot
     let cfg : Cfg := { ord := mkOrd snaps, default := ← unhx dflt, secondary := ← unhx sec,
-                       abort := ← pAbort ab, sess := ← pSess ss }
+                       abort := ← pAbort ab, sess := ← pSess ss,
+                       onOpen := ← pHook hko, onClose := ← pHook hkc }
     let mcfg : MCfg := { blocked := ← (splitL ";" blocked).mapM pPair, password := ← pPassword pw,
                          pwLimit := ← pwl.toNat?, failLines := ← pLines fl,
                          extra := ← (splitL ";" extra).mapM pTriple }
-    let w : W MDev := { tbl := t, belief := ← unhx belief, ch := { dev := { mode := ← unhx login } } }
-    pure { cfg, mcfg, w, ops := ← (splitL ";" ops).mapM pOp }
+    let w : W MDev := { tbl := t, belief := ← unhx belief, ch := { dev := { mode := ← unhx login, login := ← unhx login }, closed := !(← pBool opened) } }
+    pure { cfg, mcfg, w, ops := ← (splitL ";" ops).mapM pXOp }
   | _ => none
 
-def runOps (c : Cfg) (d : Dev MDev) : W MDev → List Op → List String → W MDev × List String
+def runOps (c : Cfg) (d : Dev MDev) : W MDev → List XOp → List String → W MDev × List String
   | w, [], acc => (w, acc.reverse)
   | w, op :: ops, acc =>
-    let (w', o) := step c d w op
+    let (w', o) := xstep c d w op
     let rec_ := s!"{outcomeStr o},{hx w'.belief},{w'.ch.rounds},{if w'.hazard then 1 else 0},{w'.ch.dev.log.length},{hx w'.ch.dev.mode}"
     runOps c d w' ops (rec_ :: acc)
 
